@@ -10,7 +10,7 @@ from ..effects import EffectAnalysis
 from ..model import AnalysisError, FuncInfo, unparse
 from ..normalize import expanded, single_assignments
 from ..report import RuleResult
-from ._c15_sem import (dependency_table, expand_context_managers, group_switch_denials, layers, objects_of, pair_membership_sites, requires_table,
+from ._c15_sem import (dependency_table, element_exemptions, expand_context_managers, group_switch_denials, layers, objects_of, pair_membership_sites, requires_table,
                        shared_root, silent_kinds)
 from ._c15_sym import Executor, literal_elements
 
@@ -566,6 +566,41 @@ def rule_commit(ctx) -> RuleResult:
                     bad.append((fld, st))
         inst = f"{fn.qualname}: {len(a_nodes)} validation call(s)"
         res.inst(inst, nontrivial=True, ok=not bad)
+        # a field stored before the validation may hold a REJECTED value: whether the validation runs must then not depend on it
+        # (`if val == self._value: return` accepts the second assignment of a value the first assignment rejected)
+        if bad:
+            risky = {f.lstrip("_") for f, _ in bad}
+
+            def skips(start):
+                """the normal exit is reachable from `start` without passing a validation"""
+                seen, work = set(), [start]
+                while work:
+                    x = work.pop()
+                    if x in seen or x in a_nodes:
+                        continue
+                    seen.add(x)
+                    if x is g.exit:
+                        return True
+                    work += [m for m, lab in x.succ if lab not in ("exc", "raise")]
+                return False
+
+            deciding = []
+            for nd in g.nodes:
+                if nd.kind != "test" or nd in a_nodes:
+                    continue
+                outs = {lab: skips(m) for m, lab in nd.succ if lab in ("true", "false")}
+                if len(outs) == 2 and outs["true"] != outs["false"]:
+                    reads = {x.attr.lstrip("_") for x in ast.walk(expanded(nd.ast, fn.node, defs))
+                             if isinstance(x, ast.Attribute) and isinstance(x.value, ast.Name) and x.value.id == sn}
+                    deciding.append((nd, reads & risky))
+            guilty = [(nd, r) for nd, r in deciding if r]
+            res.inst(f"{fn.qualname}: {len(deciding)} condition(s) decide whether the validation runs; none reads a field stored before it",
+                     nontrivial=True, ok=not guilty)
+            for nd, r in guilty:
+                res.find(fn.cls.name, fn.prop or fn.name, f"whether the validation runs depends on self.{sorted(r)[0]}, stored before validating",
+                         f"{fn.module.relpath}:{nd.lineno}",
+                         f"{fn.qualname} skips the validation depending on self.{sorted(r)[0]}, which holds whatever the previous assignment stored — also a value "
+                         "that was rejected: assigning the same invalid value again is accepted silently (the verdict depends on the earlier call)")
         for fld, st in bad:
             res.find(fn.cls.name, fn.prop or fn.name, f"stores self.{fld} before validating: {construct_text(st, fld)}",
                      f"{fn.module.relpath}:{st.lineno}",
@@ -681,6 +716,22 @@ def rule_rules(ctx) -> RuleResult:
                  f"{RE.module.relpath}:{lost[0]}",
                  "the children the data is looked up in are not those of the pair's own parent (computed once for all pairs): a data selector is "
                  "accepted as soon as its value is a child of any referenced object")
+    # (f) elements of a value exempted from a validator's raising check are the None ones only
+    nl = 0
+    for S in p.subclasses(p.cls("BaseValidator"), strict=True):
+        m = S.own("validate")
+        if not (m and m[0] == "method"):
+            continue
+        wide, n_ = element_exemptions(ctx.view(m[1]).node)
+        nl += n_
+        if n_:
+            res.inst(f"{S.name}.validate: an element skips the raising check only when it is None ({n_} loop(s))", nontrivial=True, ok=not wide)
+        for line, conds in wide[:1]:
+            res.find(S.name, "validate", "elements other than None are exempted from the check", f"{m[1].module.relpath}:{line}",
+                     f"an element leaves the loop unchecked under {conds}: falsy values (0, '', 0.0, False, empty containers) are never compared "
+                     "with what the form allows")
+    if nl == 0:
+        raise AnalysisError("no validator inspects the elements of a value with a raising check (ValueValidator / TypeValidator loops not found)")
     # (b) AssociationValidator kinds
     V = p.cls("AssociationValidator")
     vf0 = V.methods.get("validate")
@@ -854,4 +905,123 @@ def rule_shared(ctx) -> RuleResult:
     return res
 
 
-RULES = [rule_pure, rule_commit, rule_rules, rule_stale, rule_shared]
+def rule_reset(ctx) -> RuleResult:
+    res = RuleResult(
+        "C15.RESET",
+        "C15",
+        "a cached validation object (a lazily built InputValidation / enforcer pool kept in a field of self) that is derived from the form "
+        "is dropped on every path of a method that re-binds the form, or any other field its getter reads (the user's rules, the options): "
+        "assigning new forms / rules / options never leaves the validator built for the previous ones",
+        floor=3,
+    )
+    from ..cache import deps, memo_getters, none_tested_field
+
+    p = ctx.p
+    mods = scope_modules(p)
+
+    def validating_class(e):
+        """the stored value is an instance of a class of the scope that validates (has validate / validate_data / enforce)"""
+        if isinstance(e, ast.Call):
+            f = e.func
+            r = p.resolve_name(mod, f.id) if isinstance(f, ast.Name) else p.resolve_expr(mod, f) if isinstance(f, ast.Attribute) else None
+            if r and r[0] == "class":
+                return any(r[1].lookup(n) for n in VALIDATION_CALLS)
+            if r and r[0] == "func" and r[1].cls is not None:  # alternative constructor
+                return any(r[1].cls.lookup(n) for n in VALIDATION_CALLS)
+        return False
+
+    for K in [c for c in p.classes if c.module in mods]:
+        mod = K.module
+        form = K.lookup("ui_json")
+        if not (form and form[1] == "prop" and form[2].getter is not None):
+            continue
+        # the field(s) behind the form property
+        backing = {x.attr for x in ast.walk(form[2].getter.node) if isinstance(x, ast.Attribute) and isinstance(x.value, ast.Name)
+                   and x.value.id == form[2].getter.self_name and x.attr.startswith("_")}
+        for prop, fld, getter in memo_getters(K):
+            gsn = getter.self_name
+            built = [st.value for st in ast.walk(getter.node) if isinstance(st, ast.Assign) and any(
+                isinstance(t, ast.Attribute) and t.attr == fld and isinstance(t.value, ast.Name) and t.value.id == gsn for t in st.targets)]
+            if not any(validating_class(v) for v in built):
+                continue
+            # every field the getter reads, directly or through the properties it consults (the form, the user's rules, the options)
+            dep = deps(K, getter, fld)
+            if not (dep & backing):
+                continue
+            for fn0 in [f for c in K.mro if not isinstance(c, str) for f in list(c.methods.values()) +
+                        [s_ for pr in c.props.values() for s_ in (pr.setter, pr.getter) if s_]]:
+                if fn0.self_name is None or fn0.name.startswith("__") or fn0 is getter:
+                    continue  # __init__: the object is being built, nothing is cached yet
+                fn = ctx.view(fn0)
+                sn = fn.self_name
+                # a getter that fills its own field with the default while it is still None (`if self._x is None: self._x = <default>`) does
+                # not re-bind anything the user assigned — it is what building the cached validator itself triggers
+                default_fill = set()
+                if fn0.kind == "getter":
+                    gg = CFG(fn.node)
+
+                    def none_fact(test, fld_):
+                        """(truth of the test that establishes `self.<fld_> is None`) or None"""
+                        if fld_ in none_tested_field(test, sn):
+                            return True
+                        if isinstance(test, ast.UnaryOp) and isinstance(test.op, ast.Not) and none_fact(test.operand, fld_) is not None:
+                            return not none_fact(test.operand, fld_)
+                        if isinstance(test, ast.Compare) and len(test.ops) == 1 and isinstance(test.ops[0], ast.IsNot) and isinstance(test.comparators[0], ast.Constant) \
+                                and test.comparators[0].value is None and isinstance(test.left, ast.Attribute) and test.left.attr == fld_ \
+                                and isinstance(test.left.value, ast.Name) and test.left.value.id == sn:
+                            return False
+                        return None
+
+                    for d_ in dep:
+                        def tr(node, known, d_=d_):
+                            if node.kind == "test":
+                                nf = none_fact(node.ast, d_)
+                                if nf is not None:
+                                    return {"true" if nf else "false": True, None: known}
+                            if node.kind == "stmt" and any(isinstance(t, ast.Attribute) and t.attr == d_ and isinstance(t.ctx, ast.Store) for t in ast.walk(node.ast)):
+                                return False
+                            return known
+
+                        known_in = forward(gg, False, tr, lambda x, y: x and y)
+                        for nd in gg.nodes:
+                            if nd.kind == "stmt" and known_in.get(nd, False) and isinstance(nd.ast, (ast.Assign, ast.AnnAssign)):
+                                tg = nd.ast.targets if isinstance(nd.ast, ast.Assign) else [nd.ast.target]
+                                if any(isinstance(t, ast.Attribute) and t.attr == d_ and isinstance(t.value, ast.Name) and t.value.id == sn for t in tg):
+                                    default_fill.add(id(nd.ast))
+
+                def rebinds(st, names):
+                    if id(st) in default_fill:
+                        return False
+                    if isinstance(st, ast.Delete):
+                        tg = st.targets
+                    elif isinstance(st, (ast.Assign, ast.AugAssign, ast.AnnAssign)):
+                        tg = st.targets if isinstance(st, ast.Assign) else [st.target]
+                    else:
+                        return False
+                    flat = [x for t in tg for x in (t.elts if isinstance(t, (ast.Tuple, ast.List)) else [t])]
+                    return any(isinstance(t, ast.Attribute) and isinstance(t.value, ast.Name) and t.value.id == sn and t.attr in names for t in flat)
+
+                if not any(rebinds(st, dep) for st in ast.walk(fn.node)):
+                    continue
+                g = CFG(fn.node)
+
+                def transfer(node, states):
+                    if node.kind != "stmt":
+                        return states
+                    d, r = rebinds(node.ast, dep), rebinds(node.ast, {fld})
+                    return frozenset(((a or d), (b or r)) for a, b in states)
+
+                IN = forward(g, frozenset({(False, False)}), transfer, lambda a, b: a | b)
+                stale = (True, False) in IN.get(g.exit, frozenset())
+                hit = sorted({t.attr for st_ in ast.walk(fn.node) if rebinds(st_, dep) for t in ast.walk(st_)
+                              if isinstance(t, ast.Attribute) and isinstance(t.ctx, (ast.Store, ast.Del)) and t.attr in dep})
+                res.inst(f"{K.name}.{fn0.name}{'[' + fn0.kind + ']' if fn0.kind in ('setter', 'getter') else ''}: re-binds {hit}; the cached {prop} "
+                         f"(self.{fld}) is dropped on every path that does", nontrivial=True, ok=not stale)
+                if stale:
+                    what = "the form" if set(hit) & backing else f"self.{hit[0]}"
+                    res.find(K.name, fn0.prop or fn0.name, f"a path re-binds {what} without dropping the cached {prop}", fn0.where,
+                             f"self.{fld} keeps the validation object built from the previous {', '.join(hit)}: later values are judged by the old rules / options")
+    return res
+
+
+RULES = [rule_pure, rule_commit, rule_rules, rule_stale, rule_shared, rule_reset]
